@@ -18,6 +18,7 @@ import (
 type check struct {
 	ms    engine.MultiStr
 	pairs []pa.Token // token menu of the pair closure
+	tri   []pa.Token // reduced menu of the triple closure
 	nStr  int64      // units belonging to the string spaces
 }
 
@@ -33,7 +34,7 @@ func split(s string) []string {
 	return out
 }
 
-var sigma0 = append(split("aeuU-\\0.+/*\"'\n (){}[];:!#@%<>,?=|é"), "\t")
+var sigma0 = append(split("aeuU-\\0.+/*\"'\n (){}[];:!#@%<>,?=|é"), "\t", "\x7f", "\x01")
 
 func (c *check) Init(tier string, seed int64) engine.Space {
 	full, foc := 4, 7
@@ -43,20 +44,23 @@ func (c *check) Init(tier string, seed int64) engine.Space {
 	c.ms = engine.MultiStr{Batch: 2048, Spaces: []*engine.StrSpace{
 		{Name: "full", Alphabet: sigma0, MaxLen: full},
 		{Name: "escapes", Alphabet: split("\\0af \n\"é-"), MaxLen: foc},
+		{Name: "controls", Alphabet: append(split("a-(\" #@1"), "\\7f ", "\\1 ", "\\b ", "\x7f", "\x01", "url(", ")"), MaxLen: foc - 2},
 		{Name: "numbers", Alphabet: split("0.eE+-%a1"), MaxLen: foc},
 		{Name: "urls", Alphabet: append(split("/*() \"\\'"), "url"), MaxLen: foc},
 		{Name: "blocks", Alphabet: split("()[]{}a;"), MaxLen: foc},
 		{Name: "fusing", Alphabet: split("a1-+.#@e%/*(u?>"), MaxLen: foc - 1},
 		{Name: "atcdo", Alphabet: split("@a;{}<!->"), MaxLen: foc},
+		{Name: "skipped-comments", Alphabet: append(split("@a1-:;{ #"), "/**/"), MaxLen: foc - 1},
 	}}
 	c.nStr = c.ms.Units()
 	c.pairs = pairMenu()
+	c.tri = tripleMenu()
 	np := int64(len(c.pairs))
-	units := c.nStr + np // one unit per first token of a pair
+	units := c.nStr + np + int64(len(c.tri)) // one unit per first token of a pair / triple
 	return engine.Space{
 		Units: units, Chunk: 8, Level: "model_checking",
 		Rule:   "every string of the prefix trees over the listed alphabets up to the listed lengths (index-addressable, shortest first) plus every ordered pair of a menu of component values; a case is non-trivial when its token list is error-free and non-empty, so that the round trip is actually compared",
-		Bounds: map[string]any{"string_spaces": c.ms.Bounds(), "pair_menu_tokens": np, "strings_total": c.ms.Total()},
+		Bounds: map[string]any{"string_spaces": c.ms.Bounds(), "pair_menu_tokens": np, "triple_menu_tokens": len(c.tri), "strings_total": c.ms.Total()},
 		Assumptions: []string{
 			"code points outside the class representatives of the alphabets behave like their representative",
 			"strings longer than the bounds are not explored",
@@ -150,10 +154,17 @@ func (c *check) roundTrip(ctx *engine.Ctx, desc string, toks []pa.Token) {
 }
 
 func (c *check) Run(u int64, ctx *engine.Ctx) {
-	if u >= c.nStr {
-		c.runPairs(u-c.nStr, ctx)
+	// order: pair closure, triple closure, then the string spaces (cheap structural families first)
+	if u < int64(len(c.pairs)) {
+		c.runPairs(u, ctx)
 		return
 	}
+	u -= int64(len(c.pairs))
+	if u < int64(len(c.tri)) {
+		c.runTriples(u, ctx)
+		return
+	}
+	u -= int64(len(c.tri))
 	sp, lo, hi := c.ms.Unit(u)
 	for i := lo; i < hi; i++ {
 		x := sp.At(i)
@@ -165,8 +176,15 @@ func (c *check) Run(u int64, ctx *engine.Ctx) {
 		}
 		ctx.Trans(1)
 		c.roundTrip(ctx, desc, toks)
+		// the same text tokenized with comments skipped: tokens that a comment kept apart are now adjacent
+		noc := toks
+		if strings.Contains(x, "/*") {
+			if ctx.GuardFail(desc+" [skipComments]", nil, func() { noc = pa.Tokenize([]byte(x), true) }) {
+				c.roundTrip(ctx, desc+" [skipComments]", noc)
+			}
+		}
 		// rule level: every rule / declaration parsed from x, serialized and parsed again
-		c.ruleLevel(ctx, desc, toks)
+		c.ruleLevel(ctx, desc, noc)
 	}
 }
 
@@ -280,10 +298,38 @@ func (c *check) runPairs(first int64, ctx *engine.Ctx) {
 	}
 }
 
-func (c *check) Describe(u int64) any {
-	if u >= c.nStr {
-		return map[string]any{"pair_first_token": strings.TrimSpace(cssn.List(c.pairs[u-c.nStr:u-c.nStr+1], nopt)), "against": "every token of the menu"}
+func tripleMenu() []pa.Token {
+	srcs := []string{"a", "-", "--", "--x", "-a", "u", "e", "1", "+1", "1e", "1px", "#a", "@a", "<", "!", ">", "+", ".", "/", "*", "#", "@", "|", "=", "?", "%", "U+1", "f(", "(", " "}
+	var out []pa.Token
+	for _, s := range srcs {
+		if t := safeTokenize(s); len(t) == 1 {
+			out = append(out, t[0])
+		}
 	}
+	return out
+}
+
+func (c *check) runTriples(first int64, ctx *engine.Ctx) {
+	a := c.tri[first]
+	for _, b := range c.tri {
+		for _, d := range c.tri {
+			l := []pa.Token{a, b, d}
+			desc := fmt.Sprintf("triple:%s", strings.TrimSpace(cssn.List(l, nopt)))
+			ctx.Trans(1)
+			c.roundTrip(ctx, desc, l)
+		}
+	}
+}
+
+func (c *check) Describe(u int64) any {
+	if u < int64(len(c.pairs)) {
+		return map[string]any{"pair_first_token": strings.TrimSpace(cssn.List(c.pairs[u:u+1], nopt)), "against": "every token of the menu"}
+	}
+	u -= int64(len(c.pairs))
+	if u < int64(len(c.tri)) {
+		return map[string]any{"triple_first_token": strings.TrimSpace(cssn.List(c.tri[u:u+1], nopt)), "against": "every pair of the reduced menu"}
+	}
+	u -= int64(len(c.tri))
 	sp, lo, hi := c.ms.Unit(u)
 	return map[string]any{"space": sp.Name, "first": sp.At(lo), "last": sp.At(hi - 1), "strings": hi - lo}
 }
